@@ -142,7 +142,7 @@ def checkFlushRound (ws : List Watcher) (recs : List Rec) (calls : List (Nat × 
           if got != want then
             let extra := evs.filter (fun e => !want.contains e.name)
             if w.onlychanged && want.all got.contains && got.filter want.contains == want
-                && extra.all (fun e => e.old == e.new) then
+                && extra.all (fun e => same e.old e.new) then
               some s!"flush: changes-only watcher {wid} also received the unchanged event of {extra.map (·.name)} queued on behalf of another watcher"
             else
               some s!"flush: watcher {wid} received events for {got}, qualifying parameters {want}"
@@ -217,7 +217,7 @@ def checkNodes (prop : String) (c : Cfg) (ws : List Watcher) (top : Bool) : Nat 
       | some s => some s
       | none => checkNodes prop c ws top f rest
 
-/-- C05: sibling statements see the same flags (every statement restores them, whatever its outcome) -/
+/-- C05 (checked for all three properties): sibling statements see the same flags (every statement restores them, whatever its outcome) -/
 def siblingFlags : Nat → List Item → Option String
   | 0, _ => none
   | f + 1, items =>
@@ -239,7 +239,8 @@ def specProgram (prop : String) (c : Cfg) (ws : List Watcher) (_init : List Int)
     | _, [] => none
     | n, st :: rest =>
       let e1 := checkNodes prop c ws true 100000 st.items
-      let e2 := if prop == "C05" then siblingFlags 100000 st.items else none
+      -- (stated by C05; C03 and C04 rely on it: the type of an event and whether it is deferred follow from the flags)
+      let e2 := siblingFlags 100000 st.items
       let e3 := if st.batch then some "batching flag left set after a top-level statement"
                 else if st.trigger then some "trigger flag left set after a top-level statement"
                 else if st.nevents != 0 || !st.queued.isEmpty then
